@@ -80,13 +80,8 @@ type c17Result struct {
 var c17OptStrings = []string{"", "?preload=true", "?lrucache=true&lrucachesize=2000", "?preload=true&lrucache=true&lrucachesize=100000", "?lrucachesize=100000&lrucache=true&preload=true"}
 
 func workerC17(args []string) int {
-	b, err := os.ReadFile(args[0])
-	if err != nil {
-		fmt.Fprintln(os.Stderr, err)
-		return 3
-	}
 	var spec c17Spec
-	if err := json.Unmarshal(b, &spec); err != nil {
+	if err := readSpec(args[0], &spec); err != nil {
 		fmt.Fprintln(os.Stderr, err)
 		return 3
 	}
@@ -682,9 +677,11 @@ func runC17(r *vf.Run) {
 				_ = ix.CopyFile(f.Path, p)
 				sub.Files = append(sub.Files, c17File{Path: p, Rows: f.Rows, Queries: f.Queries})
 			}
-			b, _ := json.Marshal(sub)
-			specPath := filepath.Join(cdir, "spec.json")
-			_ = os.WriteFile(specPath, b, 0o644)
+			specPath := filepath.Join(cdir, "spec.gob")
+			if err := writeSpec(specPath, sub); err != nil {
+				r.Inconclusive("cannot write the child's case specification: " + err.Error())
+				return
+			}
 			logp := filepath.Join(cdir, "race.log")
 			res := runChild(r, binPath("vcheck.race"), []string{"worker", "c17-histories", specPath}, childOpts{Timeout: 90 * time.Second, RaceLog: logp})
 			// which histories completed?
